@@ -54,7 +54,7 @@ ClassesOf(fk) ==
     [] fk = "str" -> {"empty", "typ", "long", "json", "unicode", "hex"}
     [] fk = "hash" -> {"zero", "typ", "ff", "lead0"}
     [] fk = "bytes" -> {"nil", "empty", "typ", "lead0", "long"}
-    [] fk = "time" -> {"zero", "utc", "nsec", "east", "west", "zero-off-named", "secoff", "mono", "local", "early", "far", "typ"}
+    [] fk = "time" -> {"zero", "utc", "nsec", "east", "west", "zero-off-named", "secoff", "west-secoff", "mono", "local", "early", "far", "typ"}
     [] fk = "big" -> {"nil", "zero", "typ", "lead0", "big", "neg"}
     [] fk = "sign" -> {"nil", "zero", "typ", "max", "lead0"}
     [] fk = "map" -> {"nil", "empty", "one", "max", "typ"}
@@ -145,8 +145,13 @@ ParseRef(kind, present, hpresent, txs, tv) ==
     [] kind = "group" -> IF 1 \in present /\ GHeaderRequired \subseteq hpresent THEN "object" ELSE "error"
 
 (* ------------------------------------------- concrete level (projections) *)
+(* a zone offset west of Greenwich that is not a whole number of minutes *)
+NegSecOffset(v) == v.off < 0 /\ (0 - v.off) % 60 # 0
 NormField(fk, v) ==
-  CASE fk = "time" -> [v EXCEPT !.mono = FALSE]
+  \* time.MarshalBinary/UnmarshalBinary of this Go version (1.23): the seconds of a negative zone offset
+  \* are written as a signed byte and read back unsigned, the offset comes back 256 s larger (as coded
+  \* in the standard library; the property's verdict tags still fire: a zone is lost)
+  CASE fk = "time" -> [v EXCEPT !.mono = FALSE, !.off = IF NegSecOffset(v) THEN v.off + 256 ELSE v.off]
     [] fk = "big" -> IF v.nil THEN v ELSE [v EXCEPT !.neg = FALSE]
     [] fk \in {"hashes", "hashes2"} -> [v EXCEPT !.nil = FALSE]
     [] fk = "blist" -> IF v.l = <<>> THEN [v EXCEPT !.nil = TRUE] ELSE v
